@@ -127,6 +127,7 @@ type FnGen struct {
 	boundCallees map[string]bool
 	selectN      int
 	callOrd      map[ssa.Instruction]callOrdinal
+	hookExtra    map[string]TVal
 	iterOrd      map[ssa.Instruction]int
 }
 
@@ -939,6 +940,9 @@ func (g *FnGen) loopHead(s *State, li *loopInfo) {
 		n := g.fresh(heapName(k)+"_h", "(Array Ref "+k+")")
 		s.heaps[k] = n
 		tinv = append(tinv, g.frameAxiomPats(li.pats, k, old, n, pre.next, li.touched))
+		if c := closedHeapAxiom(n, k, s.next); c != "" {
+			tinv = append(tinv, c)
+		}
 	}
 	for name := range ghostsMod {
 		gd := g.c.ghosts[name]
@@ -953,6 +957,26 @@ func (g *FnGen) loopHead(s *State, li *loopInfo) {
 	}
 	g.assume(s, and(is...))
 	g.cover = append(g.cover, coverPoint{fmt.Sprintf("loop%d-head", li.ordinal), s.pc})
+}
+
+// closedHeapAxiom: references held in the cells of existing objects denote existing objects (rid below the allocation
+// frontier).  An invariant of the memory model: every reference value is created below the frontier (parameters,
+// allocations, typed results) and the frontier only grows; stated for havocked heaps, where it would otherwise be lost.
+func closedHeapAxiom(heap, sort, next string) string {
+	var tgt string
+	switch sort {
+	case "Ref":
+		tgt = "(select " + heap + " r)"
+	case "Slice":
+		tgt = "(s-arr (select " + heap + " r))"
+	case "Iface":
+		tgt = "(i-val (select " + heap + " r))"
+	case "Fn":
+		tgt = "(fn-env (select " + heap + " r))"
+	default:
+		return ""
+	}
+	return fmt.Sprintf("(forall ((r Ref)) (! (=> (< (rid r) %s) (< (rid %s) %s)) :pattern ((select %s r))))", next, tgt, next, heap)
 }
 
 func clauseID(c Clause, i, j int) string {
@@ -1006,7 +1030,19 @@ func (g *FnGen) scanEffects(ins ssa.Instruction, assigned map[*ssa.Alloc]bool, h
 		}
 		if g.fc != nil {
 			for _, sg := range g.fc.SelectGhost {
-				ghosts[sg.Ghost] = true
+				if sg.Ghost != "" {
+					ghosts[sg.Ghost] = true
+				}
+			}
+		}
+	case *ssa.Send:
+		if g.fc != nil {
+			if co, ok := g.callOrd[ins]; ok {
+				for _, h := range g.fc.CallHooks {
+					if h.Callee == co.key && (h.K == co.k || h.K == 0) && h.Ghost != "" {
+						ghosts[h.Ghost] = true
+					}
+				}
 			}
 		}
 	case *ssa.MakeChan:
@@ -1590,6 +1626,14 @@ func (g *FnGen) execPhi(s *State, x *ssa.Phi) {
 }
 
 // numberCalls gives every call (and unary receive) its ordinal, in source order, among the calls of the same callee.
+func isConstLike(v ssa.Value) bool {
+	switch v.(type) {
+	case *ssa.Const, *ssa.Global, *ssa.Parameter, *ssa.FreeVar:
+		return true
+	}
+	return false
+}
+
 func (g *FnGen) numberCalls() {
 	type item struct {
 		ins ssa.Instruction
@@ -1613,6 +1657,8 @@ func (g *FnGen) numberCalls() {
 				if x.Op == token.ARROW {
 					items = append(items, item{ins, "<-"})
 				}
+			case *ssa.Send:
+				items = append(items, item{ins, "->"})
 			}
 		}
 	}
@@ -1625,6 +1671,9 @@ func (g *FnGen) numberCalls() {
 	}
 	if g.fc != nil {
 		for _, h := range g.fc.CallHooks {
+			if h.Callee == "->" && h.K == 0 {
+				continue
+			}
 			if cnt[h.Callee] < h.K || h.K < 1 {
 				panic(genErr("%s: hook names call %d of %s but the function has %d", h.Where, h.K, h.Callee, cnt[h.Callee]))
 			}
@@ -1643,11 +1692,23 @@ func (g *FnGen) runHooks(s *State, ins ssa.Instruction, recv string, recvT types
 	}
 	nth := 0
 	for _, h := range g.fc.CallHooks {
-		if h.Callee != co.key || h.K != co.k {
+		if h.Callee != co.key || (h.K != co.k && !(h.Callee == "->" && h.K == 0)) {
 			continue
 		}
 		nth++
 		env := g.newEnv(s, g.entry)
+		for k, v := range g.hookExtra {
+			env.vars[k] = v
+		}
+		if ci, ok := ins.(ssa.CallInstruction); ok {
+			for i, a := range ci.Common().Args {
+				if t := g.c.reg.sortOf(a.Type()); t != "" {
+					if av := g.vals[a]; av != nil && av.term != "" || isConstLike(a) {
+						env.vars[fmt.Sprintf("callarg%d", i)] = TVal{term: g.term(s, a), ty: Ty{sort: t, gt: a.Type()}}
+					}
+				}
+			}
+		}
 		// inside a loop: the innermost enclosing loop gives iter / ranged / atloop their meaning
 		var inner *loopInfo
 		for _, li := range g.enclosingLoops() {
